@@ -88,6 +88,15 @@ PartialV(e) ==
 ForwardsV(e) ==
   LET o == e.ins[1].ps  i == e.ins[2].ps  fl == e.flags IN
   (IF W("C10") /\ e.out.tag = "sig" /\ ~fl.partial THEN C10_EmbedMeta(o, i, e.out.ps) ELSE {})
+  \cup (IF W("C04") /\ e.out.tag = "sig" /\ ~fl.partial /\ ~(fl.ha \/ fl.hk) /\ Rng(fl.names) \cap PoNames(i) = {} THEN
+          (* the composite contract: a call the result accepts is accepted by outer, and what outer forwards, *)
+          (* together with the n positionals and the names written in the call, is accepted by inner          *)
+          LET names == Rng(fl.names)  Calls == CallsFor(<<o, i>>, Foreign, 0) IN
+          Clause(\E c \in Calls : /\ Accepts(e.out.ps, c) /\ NonColliding(c, e.out.ps, <<o, i>>) /\ c.kw \cap names = {}
+                                  /\ ~(Accepts(o, c) /\ LET sp == Surplus(o, c, fl.uva, fl.uvk) IN
+                                                         Accepts(i, [np |-> sp.np + fl.n, kw |-> sp.kw \cup names])),
+                 "C04_ForwardsSound")
+        ELSE {})
 
 (* C10: keywords bound by a partial appear as keyword-only parameters whose default is the bound value *)
 PartialMetaV(e) ==
